@@ -71,6 +71,8 @@ def std_models(include_quantised=True):
                          {"name": "gauss_cut", "dims": 2, "cut": -6.0}]),
         st.just({"name": "periodic", "dims": 2}),
         st.just({"name": "gw_named"}),
+        # a parameter with one finite and one infinite prior bound
+        st.just({"name": "half_bounded"}),
     ]
     if include_quantised:
         opts.append(st.just({"name": "quantised", "dims": 2}))
@@ -165,6 +167,10 @@ def reparam_options(model):
         "offset",
     ]
     choices = [st.sampled_from(general)]
+    if name == "half_bounded":
+        # reparameterisations that need a bounded prior only for x0
+        return st.sampled_from([None, None, "zscore", "none",
+                                {"x0": "default"}, {"x0": "logit"}])
     if name == "periodic":
         choices.append(st.sampled_from([
             {"phi": "angle-2pi"},
@@ -387,6 +393,14 @@ def ins_models():
             {"name": "gauss_uniform", "dims": 2, "lo": [-1.0, -10.0],
              "hi": [1.0, 10.0], "mu": [1.5, 0.0],
              "bounds_order": "reversed"}]),
+        # an unnormalised likelihood: log-evidence far outside the range of
+        # exp in double precision
+        st.sampled_from([
+            {"name": "gauss_uniform", "dims": 2, "offset": -1000.0},
+            {"name": "gauss_uniform", "dims": 2, "offset": 600.0}]),
+        # log_prior without a test of the bounds (the plain density)
+        st.just({"name": "gauss_uniform", "dims": 2,
+                 "prior_bounds_check": False}),
         st.just({"name": "gauss_gauss", "dims": 2}),
         st.just({"name": "rosenbrock", "dims": 2}),
         st.just({"name": "gauss_hole", "dims": 2}),
@@ -415,6 +429,13 @@ def ins_job(draw, resume_cycles=(0, 0), nlive=(100, 500),
         "n_neurons": draw(st.sampled_from([8, 16])),
     }
     labels.append("ftype:" + kw["flow_config"]["ftype"])
+    if kw["flow_config"]["ftype"] != "maf" and \
+            draw(st.integers(0, 5)) == 0:
+        # base distribution given as an object with learnable parameters
+        # (every level builds its flow from this one configuration)
+        kw["flow_config"]["distribution"] = {"__dist__": draw(
+            st.sampled_from(["learnable-instance", "learnable-class"]))}
+        labels.append("base-dist:learnable-object")
     kw["training_config"] = {
         "max_epochs": draw(st.integers(100, 200)),
         "patience": draw(st.sampled_from([10, 20])),
